@@ -2,6 +2,7 @@ package rules
 
 import (
 	"fmt"
+	"go/token"
 	"sort"
 	"strings"
 
@@ -125,7 +126,7 @@ func c12Paths(c *Ctx, m *searchModel, rec []*ssa.Function) {
 						okPollAfterChild = false
 					}
 					if e.Kind == evWrite {
-						site := c.pos(e.Pos)
+						site := c.pos(effectSite(e))
 						writeWhere[site] = name
 						if _, seen := writeSites[site]; !seen {
 							writeSites[site] = ""
@@ -328,4 +329,13 @@ func c12Quit(c *Ctx, m *searchModel) {
 		}
 	}
 	r.Check(bad == "" && n > 0, "R12-quit", "nested searches run under the caller's context", "", "", bad)
+}
+
+// effectSite: where, in the analysed function, an effect happens - the call of the helper it was made in when the
+// code sits in a helper that is analysed inline (two stores through one helper are two sites), else its own position.
+func effectSite(e absint.Effect) token.Pos {
+	if e.Root != token.NoPos {
+		return e.Root
+	}
+	return e.Pos
 }
